@@ -135,11 +135,14 @@ def St.shrink (s : St) (size : Nat) : St :=
     else s
   { s1 with mem := fun b i => if b = s1.cur ∧ size ≤ i ∧ i < s1.len then 0 else s1.mem b i, len := size }
 
-/-- objectGoArrayReflect._putIdx (object_goarray_reflect.go:158); `ok` = the Go type conversion succeeds. -/
+/-- objectGoArrayReflect._putIdx (object_goarray_reflect.go:158, with the bounds test of fix 1c31366);
+    `ok` = the Go type conversion succeeds. -/
 def St.putIdxArr (s : St) (i : Nat) (x : Val) (ok : Bool) : St :=
+  -- if idx >= o.fieldsValue.Len() { typeErrorResult(throw, "Cannot extend a Go array"); return false }
+  if s.len ≤ i then s else
   let cached := s.cacheGet i
   let s1 := s.detachOpt cached
-  -- rv := o.fieldsValue.Index(idx): reflect panics when idx ≥ Len()
+  -- rv := o.fieldsValue.Index(idx): reflect would panic when idx ≥ Len() (unreachable behind the test above)
   if s1.len ≤ i then { s1 with panic := true } else
   if ok then
     let s2 := { s1 with mem := updMem s1.mem s1.cur i x }
@@ -195,10 +198,11 @@ def St.moveCache (s : St) (c : Option Nat) (i : Nat) : St :=
   | some w => ({ s with ws := updN s.ws w (.cell s.cur i) } : St).cachePut i w
   | none => s.condClear i
 
-/-- swap (object_goarray_reflect.go:331): one Swap call of sort.Stable on the wrapper (in-place sort). -/
+/-- swap (object_goarray_reflect.go:335, with the guard of fix 60ad8ae): one Swap call of sort.Stable on the
+    wrapper (in-place sort). -/
 def St.swap (s : St) (i j : Nat) : St :=
-  -- vi := fieldsValue.Index(i); vj := fieldsValue.Index(j): reflect panics when out of range
-  if s.len ≤ i ∨ s.len ≤ j then { s with panic := true } else
+  -- if n := o.fieldsValue.Len(); i >= n || j >= n { return }  (the comparator has shrunk the slice)
+  if s.len ≤ i ∨ s.len ≤ j then s else
   let vi := s.slot i
   let vj := s.slot j
   let s1 := { s with mem := updMem (updMem s.mem s.cur i vj) s.cur j vi }
@@ -242,18 +246,10 @@ def St.run (s : St) : List Op → St
   | [] => s
   | op :: ops => (s.step op).run ops
 
-/-- Operations whose effect goja can see (everything except a Go-side re-allocation). -/
+/-- Operations whose effect goja can see (everything except a Go-side re-allocation, after which the cached
+    element wrappers still point into the old backing array: known finding stale-elem-wrapper-after-go-realloc). -/
 def Op.tracked : Op → Bool
   | .goRealloc _ => false
-  | _ => true
-
-/-- Operations that stay inside the wrapped value's bounds: what a script can do through the ordinary
-    property operations.  `swap` with an index ≥ len only happens inside sort when the comparator shrinks
-    the slice; `set`/`setBad` beyond the length of a Go *array* is the other excluded case. -/
-def Op.inBounds (s : St) : Op → Bool
-  | .swap i j => decide (i < s.len) && decide (j < s.len)
-  | .set i _ => !s.fixed || decide (i < s.len)
-  | .setBad i => !s.fixed || decide (i < s.len)
   | _ => true
 
 end GojaModel.C13
